@@ -6,8 +6,9 @@ import os
 VERIF = os.path.normpath(os.path.join(os.path.dirname(os.path.abspath(__file__)), ".."))
 
 NOTE_COMMON = ("Trusted base: Lean 4.33 kernel (axioms propext, Classical.choice, Quot.sound only; no sorry/native_decide/bv_decide); "
-               "harness/extract.py regenerates all tables/constants/literals from /repo on every run and harness/pytrans.py translates 38 "
-               "function bodies (incl. the state-machine core of HdlcFrameReader, the AutoDecoder rotation and the protocols' reader selection), proved equal to the model (Props/*Gen*.lean); the rest of the hand-written control-flow model is tied to the "
+               "harness/extract.py regenerates all tables/constants/literals from /repo on every run and harness/pytrans.py translates 55 "
+               "function and method bodies (FCS, CRC-16, back-off, HDLC header/frame accessors, both readers down to their buffers - read(), "
+               "_ReaderBuffer -, the AutoDecoder rotation, the protocols' reader selection), proved equal to the model (Props/*Gen*.lean); the rest of the hand-written control-flow model is tied to the "
                "Python code by a differential correspondence check (sampled, not proved). ")
 
 CHECKS = {
